@@ -12,6 +12,9 @@
 //!   F <name> <shape><flags> <threads|-> <uses|-> <calls|-> <statics|->
 //!         shape : h `void f()`  c compute  v vertex  p pixel  r pixel reading a per-primitive attribute  t task  m mesh
 //!                 n mesh with payload  q mesh with per-primitive output and control flow around the output writes
+//!                 u mesh whose per-primitive output is a plain array with a semantic of its own  f pixel with system-value
+//!                 inputs the previous stage does not write  g compute with every thread-id input  w vertex with an
+//!                 instance id  z (always with flag T) `template<typename T> T f(T tparam) { return tparam; }`
 //!         flags : d declaration only, T function template, N inside `namespace ns1`, M method of `struct S_<name>`,
 //!                 D only under `#if WIDE_ON`, E only under `#if !WIDE_ON`, R rich body (method calls on the resources,
 //!                 locals, arithmetic)
@@ -19,6 +22,7 @@
 //!   P <name> <flags|-> <prop> <prop> ...     pipeline block (flags N D E as above)
 //!         prop  : Name=val ; val : i:ident  q:qualified::ident  s:String  n:123  k:5 (constant expression)  m:1 (= -1)
 //!                 f:1.5  b:1|b:0  x:0 (no value at all: a syntax error)  {Sub=val,Sub=val}
+//!                 z:name (`sizeof(name<uint>(1u))` = 4; instantiates the function template `name`)
 //! rendering : every property on a line of its own, so that a diagnostic's line identifies the property;
 //!             `path` of a property = its number in a depth-first walk of the block (1-based; 0 = the header line).
 #![allow(dead_code)]
@@ -34,6 +38,9 @@ pub enum Val {
     Neg(u64),
     Float(String),
     Bool(bool),
+    /// `sizeof(<name><uint>(1u))`: a constant expression with the value 4 whose type check instantiates the function
+    /// template `<name>` (an item `F <name> zT`); encoded `z:<name>`
+    SizeofInst(String),
     /// nothing between `=` and `;`: the parser rejects the file
     Garbage,
     Agg(Vec<Prop>),
@@ -141,6 +148,7 @@ fn show_val(v: &Val) -> String {
         Val::Konst(n) => format!("k:{}", n),
         Val::Neg(n) => format!("m:{}", n),
         Val::Float(s) => format!("f:{}", s),
+        Val::SizeofInst(s) => format!("z:{}", s),
         Val::Bool(b) => format!("b:{}", if *b { 1 } else { 0 }),
         Val::Garbage => "x:0".to_string(),
         Val::Agg(ps) => format!("{{{}}}", ps.iter().map(show_prop).collect::<Vec<_>>().join(",")),
@@ -248,7 +256,7 @@ impl WProgram {
                 Some("F") if f.len() == 7 => {
                     let mut ch = f[2].chars();
                     let shape = ch.next()?;
-                    if !"hcvprtmnq".contains(shape) {
+                    if !"hcvprtmnqufgwz".contains(shape) {
                         return None;
                     }
                     let flags: String = ch.collect();
@@ -393,6 +401,7 @@ fn parse_val(s: &str) -> Option<Val> {
         "k" => Val::Konst(v.parse().ok()?),
         "m" => Val::Neg(v.parse().ok()?),
         "f" => Val::Float(v.to_string()),
+        "z" => Val::SizeofInst(v.to_string()),
         "b" => Val::Bool(v == "1"),
         "x" => Val::Garbage,
         _ => return None,
@@ -434,6 +443,7 @@ fn render_scalar(v: &Val) -> String {
         }
         Val::Neg(n) => format!("-{}", n),
         Val::Float(s) => s.clone(),
+        Val::SizeofInst(s) => format!("sizeof({}<uint>(1u))", s),
         Val::Bool(b) => (if *b { "true" } else { "false" }).to_string(),
         Val::Garbage => String::new(),
         Val::Agg(_) => unreachable!(),
@@ -581,7 +591,27 @@ fn render_func(prog: &WProgram, f: &WFunc) -> String {
                 (format!("void {}()", n), String::new())
             }
         }
+        'z' => (format!("template<typename T> T {}(T tparam)", n), "    return tparam;\n".to_string()),
         'c' => (format!("void {}(uint3 dtid : SV_DispatchThreadID)", n), String::new()),
+        'g' => (
+            format!("void {}(uint3 dtid : SV_DispatchThreadID, uint3 gid : SV_GroupID, uint3 gtid : SV_GroupThreadID, uint gindex : SV_GroupIndex)", n),
+            String::new(),
+        ),
+        'w' => (
+            format!("void {}(uint vid : SV_VertexID, uint iid : SV_InstanceID, out float4 o_pos : SV_Position)", n),
+            "    o_pos = float4(vid, iid, 0, 1);\n".to_string(),
+        ),
+        'f' => (
+            format!("float4 {}(float4 i_pos : SV_Position, bool i_front : SV_IsFrontFace, uint i_prim : SV_PrimitiveID) : SV_Target0", n),
+            "    return float4(i_prim, i_front ? 1 : 0, 0, 0);\n".to_string(),
+        ),
+        'u' => (
+            format!(
+                "[outputtopology(\"triangle\")]\nvoid {}(\n    uint3 dtid : SV_DispatchThreadID,\n    out vertices MeshVertex o_vertices[64],\n    out primitives uint o_material[64] : MATERIAL,\n    out indices uint3 o_triangles[64]\n)",
+                n
+            ),
+            "    SetMeshOutputCounts(64, 64);\n    MeshVertex vertex;\n    vertex.position = float4(0, 0, 0, 1);\n    o_vertices[dtid.x] = vertex;\n    o_material[dtid.x] = dtid.x % 8;\n    o_triangles[dtid.x] = uint3(0, 1, 2);\n".to_string(),
+        ),
         'v' => (
             format!("void {}(uint vid : SV_VertexID, out float4 o_pos : SV_Position)", n),
             "    o_pos = float4(0, 0, 0, 1);\n".to_string(),
@@ -1027,13 +1057,23 @@ pub fn gen_wide(rng: &mut Rng, o: &WideOpts) -> WProgram {
                 *rng.pick(&reuse)
             } else {
                 let k = entries.len();
-                let (prefix, shape) = match *st {
+                let (prefix, mut shape) = match *st {
                     "Compute" => ("cs", 'c'),
                     "Vertex" => ("vs", 'v'),
                     "Pixel" => ("ps", if kind == 5 && rng.chance(1, 3) { 'r' } else { 'p' }),
                     "Mesh" => if task_mesh { ("mst", 'n') } else if rng.chance(1, 3) { ("ms", 'q') } else { ("ms", 'm') },
                     _ => ("ts", 't'),
                 };
+                // more signature shapes (C17 only: no draw when overloads are switched off)
+                if !o.no_overloads && rng.chance(1, 4) {
+                    shape = match shape {
+                        'c' => 'g',
+                        'v' => 'w',
+                        'p' => 'f',
+                        'm' | 'q' => 'u',
+                        x => x,
+                    };
+                }
                 let (uses, calls, statics, d) = gen_body(rng, &nodes, &helper_nodes);
                 let threads = match *st {
                     "Compute" => {
@@ -1109,7 +1149,7 @@ pub fn gen_wide(rng: &mut Rng, o: &WideOpts) -> WProgram {
         for _ in 0..nedits {
             let pick_pipe = |rng: &mut Rng| -> Option<usize> { if pipe_nodes.is_empty() { None } else { Some(*rng.pick(&pipe_nodes)) } };
             // the edits 25.. exist for C17 only (C18's programs, generated with `no_overloads`, draw exactly as before)
-            match rng.below(if o.no_overloads { 25 } else { 31 }) {
+            match rng.below(if o.no_overloads { 25 } else { 32 }) {
                 0 => {
                     // entry point defined after the pipeline that names it
                     if let Some(p) = pick_pipe(rng) {
@@ -1580,6 +1620,32 @@ pub fn gen_wide(rng: &mut Rng, o: &WideOpts) -> WProgram {
                             pp.props.retain(|x| x.name != name);
                             let at = rng.below(pp.props.len() as u64 + 1) as usize;
                             pp.props.insert(at, Prop { name, val });
+                        }
+                    }
+                }
+                31 => {
+                    // a property value whose type check instantiates a function template: `sizeof(wide_tf<uint>(1u))`
+                    if let Some(p) = pick_pipe(rng) {
+                        let n = nodes.len();
+                        if !nodes.iter().any(|x| matches!(&x.item, WItem::Func(f) if f.name == "wide_tf")) {
+                            nodes.push(Node {
+                                item: WItem::Func(WFunc { name: "wide_tf".into(), shape: 'z', flags: "T".into(), threads: None, uses: Vec::new(), calls: Vec::new(), statics: Vec::new() }),
+                                deps: Vec::new(),
+                            });
+                            for q in &pipe_nodes {
+                                nodes[*q].deps.push(n);
+                            }
+                        }
+                        let val = Val::SizeofInst("wide_tf".into());
+                        if let WItem::Pipe(pp) = &mut nodes[p].item {
+                            let graphics = !pp.props.iter().any(|x| x.name == "ComputeShader");
+                            let (name, val) = if graphics && rng.chance(1, 3) {
+                                ("BlendState".to_string(), Val::Agg(vec![Prop { name: "WriteMask".into(), val }]))
+                            } else {
+                                ("DefaultBindGroup".to_string(), val)
+                            };
+                            pp.props.retain(|x| x.name != name);
+                            pp.props.push(Prop { name, val });
                         }
                     }
                 }
